@@ -104,18 +104,38 @@ def to_matrix(results, n, conv):
 
 def run_sessions(ctx, specs, label, owner_clause=lambda cl: True, nproc=12):
     """specs: list of dict(session, fn, emb, sigma_t (float or None), anchor, M, aux ('W' and/or 'BT')).  One TLC case per spec."""
+    # 'edit' (with shared containers): after the first round of calls every argument object is OVERWRITTEN IN PLACE with the doubled
+    # coordinates (same objects, same shapes -- what a caller does who rescales his arrays) and all calls are made again; the second
+    # round is judged as a session of its own (the twin spec) on the doubled diagrams
+    expanded = []
+    for sp in specs:
+        expanded.append(sp)
+        if sp.get("container") and sp.get("edit"):
+            tw = {k: v for k, v in sp.items() if k != "edit"}
+            tw["session"] = [[[2 * b, 2 * d] for b, d in dg] for dg in sp["session"]]
+            tw["_twin_of"] = sp
+            tw["zerotol"] = sp["zerotol"] * 2
+            sp["_twin"] = tw
+            expanded.append(tw)
+    specs = expanded
     alljobs, slices = [], []
     for sp in specs:
         n = len(sp["session"])
         parts = {}
         for key, fn in [("V", sp["fn"])] + [(a, {"W": "wass", "BT": "bott"}[a]) for a in sp.get("aux", [])]:
+            if key == "V" and sp.get("_twin_of") is not None:
+                parts[key] = (None, 0)
+                continue
             jobs = observe(sp["session"], fn, sp["emb"], nproc, sp.get("sigma_t"), sp.get("M"), container=sp.get("container") if key == "V" else None)
+            if key == "V" and sp.get("_twin") is not None:
+                jobs[0]["D2"] = [[[sp["emb"].f(b), sp["emb"].f(d)] for b, d in dg] for dg in sp["_twin"]["session"]]
             parts[key] = (len(alljobs), len(jobs))
             alljobs += jobs
         slices.append(parts)
     results, _ = run_driver_parallel("distances.py", alljobs, nproc=nproc, hashseeds=tuple(range(3)))
     # expand whole-session jobs (shared argument objects) into their n*n results
     mutated = {}
+    bysp = {id(sp): parts for sp, parts in zip(specs, slices)}
     for sp, parts in zip(specs, slices):
         lo, ln = parts["V"]
         if sp.get("container") and ln == 1:
@@ -124,6 +144,8 @@ def run_sessions(ctx, specs, label, owner_clause=lambda cl: True, nproc=12):
             parts["Vx"] = r["dists"] if "dists" in r else [dict(r) for _ in range(n2)]
             if r.get("mutated"):
                 mutated[id(sp)] = r["mutated"]
+            if sp.get("_twin") is not None:
+                bysp[id(sp["_twin"])]["Vx"] = r["dists2"] if "dists2" in r else [dict(r) for _ in range(n2)]
     cases = []
     for sp, parts in zip(specs, slices):
         e = sp["emb"]
@@ -154,11 +176,14 @@ def run_sessions(ctx, specs, label, owner_clause=lambda cl: True, nproc=12):
             info = {"clause": clause, "fn": sp["fn"], "indices": v[4:7]}
             if sp.get("container"):
                 info["arguments"] = "one set of %s objects shared by all calls of the session" % sp["container"]
+                if sp.get("_twin_of") is not None:
+                    info["history"] = "second round: the same argument objects after being overwritten in place with doubled coordinates"
                 if id(sp) in mutated:
                     info["arguments_modified_by_the_calls"] = mutated[id(sp)]
             if clause == "not-finite-or-NaN" and c["_bad"] is not None:
                 info["raised"] = c["_bad"].get("raised")
-            ctx.failure(info, {"kind": "laws", "fn": sp["fn"], "session": sp["session"], "emb": sp["emb"].name, "sigma_t": sp.get("sigma_t"), "M": sp.get("M"),
+            src = sp.get("_twin_of") or sp
+            ctx.failure(info, {"kind": "laws", "fn": sp["fn"], "session": src["session"], "emb": sp["emb"].name, "edit": int(bool(src.get("edit"))), "sigma_t": sp.get("sigma_t"), "M": sp.get("M"),
                                "anchor": sp.get("anchor", 0), "aux": sp.get("aux", []), "zerotol": str(sp["zerotol"]), "container": sp.get("container")})
 
 
@@ -166,4 +191,4 @@ def replay(ctx, rec):
     c = rec["case"]
     e = next(x for x in EXACT_EMBS + DEC_EMBS if x.name == c["emb"])
     run_sessions(ctx, [dict(session=c["session"], fn=c["fn"], emb=e, sigma_t=c.get("sigma_t"), M=c.get("M"), anchor=c.get("anchor", 0), aux=c.get("aux", []),
-                            zerotol=Fraction(c["zerotol"]), container=c.get("container"))], "replay", nproc=1)
+                            zerotol=Fraction(c["zerotol"]), container=c.get("container"), edit=c.get("edit", 0))], "replay", nproc=1)
